@@ -14,8 +14,8 @@ PROPERTIES = {
     ),
     'C13': dict(
         units=['u_rel'],
-        level_text="Deductive proof (Verus/Z3) that the four relation tests (TextSelection::test/test_set, TextSelectionSet::test/test_set) return exactly the interval-arithmetic relation of DESIGN.md appendix A for every operator value and every pair of ranges / sets, never panic or underflow, and that toggle_negate/toggle_all/with_limit change exactly one modifier; converse, symmetry, implication, complement and singleton laws are lemmas over that specification.",
-        level_note="Trusted: whitespace-gap scan is an uninterpreted predicate (vx_gap_is_whitespace), derived PartialEq on TextSelection is structural, TextSelectionSet::iter is a plain wrapper of data.iter() (anchor-checked text), 64-bit usize. Requires well-formed ranges (begin <= end) and the sorted-flag invariant of TextSelectionSet.",
+        level_text="Deductive proof (Verus/Z3) that the four relation tests (TextSelection::test/test_set, TextSelectionSet::test/test_set) return exactly the interval-arithmetic relation of DESIGN.md appendix A for every operator value and every pair of ranges / sets, never panic or underflow, and that toggle_negate/toggle_all/with_limit change exactly one modifier; converse, symmetry, implication, complement and singleton laws are lemmas over that specification. TextSelection::intersection returns Some exactly when Overlaps holds, with the exact overlap part, and leaves nothing of a side exactly when that side is embedded; the Ord impl of TextSelection is the canonical order (begin, then end); TextSelectionSet::add and sort establish and keep the sorted-flag invariant the set tests take as precondition.",
+        level_note="Trusted: whitespace-gap scan is an uninterpreted predicate (vx_gap_is_whitespace), derived PartialEq on TextSelection is structural, TextSelectionSet::iter is a plain wrapper of data.iter() (anchor-checked text), binary_search / sort_unstable over the canonical order and != on std's Ordering are outlined, 64-bit usize. Requires well-formed ranges (begin <= end) and the sorted-flag invariant of TextSelectionSet.",
         design_ref='DESIGN.md §7.11 and appendix A',
         explanation="relation tests proved equal to a specification written from the operator documentation; algebraic laws proved over the specification",
         assumptions=["for an empty subject set the code returns false for both an operator and its negation; the complement law is stated for non-empty subject sets"],
